@@ -18,7 +18,7 @@ OUTSIDE = ["vector lengths 18..=130", "non-grid magnitudes (float association er
 KANI_MODULES = ["c16_features"]
 D = "similari::distance::"
 U = "similari::track::utils::"
-ST = "-Z stubbing"
+ST = ""
 KANI = []
 for n in range(18):
     KANI.append(KH("c16_features::c16_roundtrip_%02d" % n, "quick", 400,
